@@ -22,7 +22,7 @@ def run(tier, R):
         cfgs += [("serial32", "release"), ("fiat64", "release"), ("notables", "release"), ("ifma", "release")]
     FS = ctx.facts_for(R, cfgs)
     R.trust("rustc MIR + resolution; mirfacts; mirlib")
-    R.assume("ladder step (differential_add_and_double), field arithmetic and the birational map formulas are value-correct (C01/C04 value level, not decided)")
+    R.assume("ladder step (differential_add_and_double: P <- 2P, Q <- P+Q given Q-P = +-base), conditional_swap, field arithmetic and the birational map formulas are value-correct (C01/C04 value level, not decided)")
     for (cfg, mode), F in FS.items():
         check_cfg(F, R, cfg)
 
@@ -264,7 +264,13 @@ def check_cfg(F, R, cfg):
                 good = bool(sk1) and bool(rv) and bool(bl) and len(sk) == 1 and root(fv, t["args"][0])[:2] == ("arg", 1) and all(root(fv, c["args"][0])[:2] == ("arg", 2) for c in bl)
                 msg = "self.mul_bits_be(scalar.bits_le().rev().skip(1)): bits 254..0, most significant first" if good else \
                     "ladder bit iterator is not scalar.bits_le().rev().skip(1) (skip=%s rev=%s bits_le=%s)" % ([op_const(c["args"][1]) and op_const(c["args"][1]).get("v") for c in sk], bool(rv), bool(bl))
-        (R.ok if good else R.viol)("C07.ladder.bits", I("&MontgomeryPoint * &Scalar"), msg, *(() if good else (fv.loc(),)))
+        sem = ladder_semantic(F, mulf, "mul")
+        if sem[0]:
+            R.ok("C07.ladder.bits", I("&MontgomeryPoint * &Scalar"), sem[1])
+        elif good:
+            R.viol("C07.ladder.bits", I("&MontgomeryPoint * &Scalar"), "the bit iterator has the expected shape but the ladder does not evaluate to the scalar's 255 low bits: " + sem[1], fv.loc())
+        else:
+            R.viol("C07.ladder.bits", I("&MontgomeryPoint * &Scalar"), msg + "; " + sem[1], fv.loc())
     bl = fn("curve25519_dalek::scalar::Scalar::bits_le")
     if bl:
         cls = F.closures_of(bl["key"])
@@ -281,8 +287,12 @@ def check_cfg(F, R, cfg):
         (R.ok if good else R.viol)("C07.ladder.bits_le", I("Scalar::bits_le"), "bit i = (bytes[i>>3] >> (i&7)) & 1 for i in 0..256" if good else "bits_le does not enumerate bit i of byte i>>3 for i in 0..256", *(() if good else (fv.loc(),)))
     mb = fn("curve25519_dalek::montgomery::MontgomeryPoint::mul_bits_be")
     if mb:
-        good, msg = ladder_structure(F, view(F, mb))
-        (R.ok if good else R.viol)("C07.ladder.structure", I("mul_bits_be"), msg, *(() if good else (view(F, mb).loc(),)))
+        sem = ladder_semantic(F, mb, "bits")
+        if sem[0]:
+            R.ok("C07.ladder.structure", I("mul_bits_be"), sem[1])
+        else:
+            good, msg = ladder_structure(F, view(F, mb))      # syntactic form: only used to explain the failure
+            R.viol("C07.ladder.structure", I("mul_bits_be"), sem[1] + ("" if good else "; " + msg), view(F, mb).loc())
 
     # ------------------------------------------------------------------ 5. to_edwards
     te = fn("curve25519_dalek::montgomery::MontgomeryPoint::to_edwards")
@@ -400,6 +410,33 @@ def bits_le_expr(e):
         return False
     am = [ex.strip(amt[2]), ex.strip(amt[3])]
     return any(ex.is_const(z, 7) for z in am) and any(ex.is_arg(z, 2) for z in am) and ex.mentions_arg(byte[1], 1)
+
+
+def ladder_semantic(F, f, how):
+    """LADDER domain (lib/eng_ladder.py): points are polynomial multiples n*P over the symbolic scalar bits; conditional_swap and
+    differential_add_and_double act by their documented contracts; the loop is followed concretely.  Independent of the loop's syntax."""
+    import eng_ladder as LD
+    from absint import I as Iv
+    self_v = ("st", (("arr", (Iv(0, 255),) * 32),))
+    try:
+        if how == "bits":
+            bits = ("it", "vals", ("arr", tuple(LD.bit(254 - i) for i in range(255))), Iv(0), Iv(255))
+            ret, ip = LD.run(F, f, [self_v, bits])
+        else:
+            ret, ip = LD.run(F, f, [self_v, ("scal", "s")])
+    except Exception as e:
+        return False, "ladder analysis failed: %r" % (e,)
+    if ip.models.bad:
+        return False, ip.models.bad[0]
+    if ret is None or ret[0] != "mp":
+        return False, "the result is not a polynomial multiple of the base point in the LADDER domain"
+    got = dict(ret[1])
+    exp = {(j,): 2 ** j for j in range(255)}
+    if got != exp:
+        wrong = [k for k in set(got) | set(exp) if got.get(k) != exp.get(k)]
+        k = sorted(wrong, key=repr)[0]
+        return False, "the ladder does not return (sum_j 2^j b_j) * P over bits 0..254: %d monomials differ (e.g. %s: coefficient %s, expected %s)" % (len(wrong), "*".join("b%d" % i for i in k) or "1", got.get(k), exp.get(k))
+    return True, "= (sum_{j<255} 2^j b_j) * P; %d ladder steps, each with Q - P = +-base (LADDER domain)" % ip.models.steps
 
 
 def ladder_structure(F, fv):
